@@ -633,8 +633,115 @@ fn step(cx: &mut Ctx, sim: &mut Simple, op: &Op, done: &[Op], last: bool) -> Ste
             check_views(cx, sim, op, &line, true, git_now);
         }
         Op::Lock(_) | Op::Unlock(_) => {}
+        Op::Race { mods, txn } => {
+            // sequential composition: the other writer first, then the transaction
+            let before = sim.clone();
+            for (n, o) in mods {
+                match o {
+                    Some(o) => {
+                        sim.map.insert(n.clone(), Tgt::O(o.clone()));
+                    }
+                    None => {
+                        sim.map.remove(n);
+                    }
+                }
+            }
+            let Op::Txn { edits, mode, .. } = &**txn else { unreachable!("race wraps a transaction") };
+            let verdict = sim.apply_txn(edits, *mode);
+            cx.rep.bucket(&format!("race:{}", res.split(':').take(2).collect::<Vec<_>>().join(":")));
+            let agree = match verdict {
+                Verdict::Ok => res == "ok",
+                Verdict::Err => res.starts_with("err:") && !res.starts_with("err:c-"),
+                Verdict::Contract => {
+                    *sim = before;
+                    for (n, o) in mods {
+                        match o {
+                            Some(o) => {
+                                sim.map.insert(n.clone(), Tgt::O(o.clone()));
+                            }
+                            None => {
+                                sim.map.remove(n);
+                            }
+                        }
+                    }
+                    res == "panic" || res.starts_with("err:")
+                }
+            };
+            cx.rep.oracle_checked();
+            let view = cx.world.view().unwrap_or_default();
+            if !agree || view != sim.map {
+                let diff: Vec<String> = NAMES
+                    .iter()
+                    .filter(|n| view.get(**n) != sim.map.get(**n))
+                    .map(|n| {
+                        format!(
+                            "{n}: gitoxide {} sequential {}",
+                            view.get(*n).map_or("-".into(), Tgt::fmt),
+                            sim.map.get(*n).map_or("-".into(), Tgt::fmt)
+                        )
+                    })
+                    .collect();
+                fail(
+                    cx,
+                    &format!("race-not-sequential [{}]", op.fmt()),
+                    &format!(
+                        "another writer rewrote packed-refs and released packed-refs.lock while the transaction waited for it; result {res}, but the store is not what the other writer followed by the transaction gives: {}",
+                        diff.join("; ")
+                    ),
+                    &line,
+                );
+                sim.map = view;
+            }
+            if !cx.world.lock_files().is_empty() {
+                fail(cx, &format!("lock-leak [{}]", op.fmt()), &format!("lock files left behind: {:?}", cx.world.lock_files()), &line);
+            }
+        }
     }
     Step::Obs(format!("{res}#{}", cx.world.dump()))
+}
+
+/// Another writer rewrites packed-refs while the transaction waits for packed-refs.lock. The
+/// other writer only touches names without a loose file (so that its effect on the map is plain),
+/// the transaction is steered towards packed-refs (deletions, packed-refs update modes).
+fn gen_race(rng: &mut Rng, world: &World, view: &BTreeMap<String, Tgt>, cfg: &GenCfg) -> Op {
+    let no_loose: Vec<&str> = EDIT_NAMES[1..]
+        .iter()
+        .copied()
+        .filter(|n| !world.git_dir.join(n).exists() && !world.git_dir.join(n).with_extension("lock").exists())
+        .collect();
+    let mut mods: Vec<(String, Option<String>)> = Vec::new();
+    for n in &no_loose {
+        // keep nested names apart
+        if mods.iter().any(|(m, _)| m.starts_with(&format!("{n}/")) || n.starts_with(&format!("{m}/"))) {
+            continue;
+        }
+        let conflict = NAMES.iter().any(|m| {
+            (m.starts_with(&format!("{n}/")) || n.starts_with(&format!("{m}/"))) && view.contains_key(*m)
+        });
+        if conflict {
+            continue;
+        }
+        match rng.below(4) {
+            0 => mods.push((n.to_string(), Some(rng.pick(&["c1", "c2", "c3"]).to_string()))),
+            1 if view.contains_key(*n) => mods.push((n.to_string(), None)),
+            _ => {}
+        }
+    }
+    let mut txn = gen_txn(rng, view, cfg);
+    if let Op::Txn { edits, mode, .. } = &mut txn {
+        if rng.chance(1, 2) {
+            *mode = *rng.pick(&[Mode::U, Mode::R]);
+        }
+        // a transaction that deletes what the other writer just packed, half of the time
+        if let (Some((n, Some(_))), true) = (mods.first(), rng.chance(1, 2)) {
+            edits.retain(|e| &e.name != n);
+            edits.push(EditSpec::parse(&format!("D,{n},n,any,-,r")).expect("edit"));
+        }
+    }
+    Op::Race {
+        mods,
+        txn: Box::new(txn),
+    }
 }
 
 fn record(cx: &mut Ctx, ops: &[Op], obs: &[String]) {
@@ -705,6 +812,8 @@ fn gen_history(rng: &mut Rng, cx: &mut Ctx, cfg: &GenCfg) {
                     pf: FailMode::I,
                 }
             }
+        } else if r < 7 {
+            gen_race(rng, &cx.world, &view, cfg)
         } else if r < 80 {
             gen_txn(rng, &view, cfg)
         } else if r < 94 {
@@ -935,6 +1044,9 @@ fn corpus() -> Vec<&'static str> {
         // git in between
         "hist gitupdate-ref d=0 nd=0 HEAD c1 - ; txn mode=D rf=I pf=I U,HEAD,d,mem=o:c1,o:c2,r ; gitpack-refs all=1 prune=1 ; txn mode=D rf=I pf=I U,refs/heads/a,n,mem=o:c2,o:c3,r ; gitupdate-ref d=1 nd=0 refs/heads/a - c3 ; txn mode=D rf=I pf=I U,refs/heads/a,n,mne,o:c1,r",
         "hist gitupdate-ref d=0 nd=1 HEAD c1 - ; gitupdate-ref d=0 nd=0 refs/tags/t c2 0 ; gitupdate-ref d=0 nd=0 refs/tags/t c3 0 ; gitupdate-ref d=0 nd=0 refs/tags/t c3 c2 ; gitpack-refs all=1 prune=0 ; gitupdate-ref d=1 nd=1 refs/tags/t - c3",
+        // another writer adds refs/heads/b to packed-refs while our deletion of refs/tags/t waits for
+        // packed-refs.lock: both must be there afterwards (snapshot read under the lock)
+        "hist txn mode=R rf=I pf=I U,refs/tags/t,n,any,o:c1,r U,refs/heads/a,n,any,o:c1,r ; race +refs/heads/b=c2 txn mode=D rf=I pf=I D,refs/tags/t,n,any,-,r ; race -refs/heads/a,+refs/tags/t=c3 txn mode=U rf=I pf=I U,refs/remotes/o/HEAD,n,any,o:c2,r ; race +refs/heads/a=c3 txn mode=R rf=I pf=I U,refs/heads/a,n,mem=o:c3,o:c1,r",
         // nested names come and go (directories are created and removed)
         "hist txn mode=D rf=I pf=I U,refs/heads/a/b,n,any,o:c1,r ; txn mode=U rf=I pf=I U,refs/tags/t,n,any,o:c1,r ; txn mode=D rf=I pf=I D,refs/heads/a/b,n,any,-,r ; txn mode=R rf=I pf=I U,refs/heads/a,n,any,o:c2,r U,refs/tags/t,n,any,o:c3,r ; txn mode=D rf=I pf=I D,refs/heads/a,n,any,-,r ; txn mode=D rf=I pf=I U,refs/heads/a/b,n,mne,o:c1,r",
     ]
